@@ -207,7 +207,7 @@ def run_proc(argv, cwd, env, stdin_data=None, timeout=20):
             "timeout": to, "wall_ms": int((time.time() - t0) * 1000)}
 
 
-def run_script(shell, script, front="c", extra_env=None, stdin_data=None, timeout=20, files=None, args=None, keep=False):
+def run_script(shell, script, front="c", extra_env=None, stdin_data=None, timeout=20, files=None, args=None, keep=False, _retried=False):
     """Run `script` through `shell` with delivery mode `front` in a fresh scratch dir.
     front: c | file | stdin | source | eval"""
     d = tempfile.mkdtemp(prefix="run-", dir=scratch())
@@ -244,6 +244,10 @@ def run_script(shell, script, front="c", extra_env=None, stdin_data=None, timeou
     else:
         raise ValueError(front)
     r = run_proc(argv, d, env, sd, timeout)
+    if r["timeout"] and not _retried and not os.environ.get("VERIF_NO_RETRY"):
+        # a loaded machine must not turn into a reported hang: one more attempt with three times the time, in a clean directory
+        shutil.rmtree(d, ignore_errors=True)
+        return run_script(shell, script, front=front, extra_env=extra_env, stdin_data=stdin_data, timeout=timeout * 3, files=files, args=args, keep=keep, _retried=True)
     r["panic"] = panic_site(r["err"])
     if keep:
         r["dir"] = d
